@@ -889,7 +889,7 @@ def main(tier, seed):
         run_mc(chk, "plain6")
     run_mc(chk, "timers")
     run_mc(chk, "timers", dev=True, expect_error="MinOnOffHold")
-    run_mc(chk, "plain16", simulate=(1500 if thorough else 100, 40, seed))      # traces per worker (2 workers)
+    run_mc(chk, "plain16", simulate=(700 if thorough else 100, 40, seed))      # traces per worker (2 workers)
     if os.environ.get("VERIF_APALACHE"):
         apalache(chk)
     else:
